@@ -564,7 +564,14 @@ func c17Retention(p *core.Program, r *core.Report) {
 			if i := strings.LastIndex(arg, ","); i >= 0 && strings.HasSuffix(arg, ".Name())") {
 				entryName = strings.TrimSuffix(arg[i+1:], ")")
 			}
-			okPath := strings.HasPrefix(arg, `filepath.Join((filepath.Join((conf.homePath),"logs")),`) && entryName != ""
+			segs := joinSegments(p, rv, call.Args[0], 0)
+			okPath := len(segs) == 3 && strings.Trim(segs[0], "()") == "conf.homePath" && segs[1] == `"logs"` && strings.HasSuffix(segs[2], ".Name()")
+			if okPath {
+				entryName = segs[2]
+				for strings.HasPrefix(entryName, "(") && strings.HasSuffix(entryName, ")") && !strings.HasSuffix(entryName, "()") {
+					entryName = entryName[1 : len(entryName)-1]
+				}
+			}
 			mentionsEntry := func(f string) bool { return entryName != "" && strings.Contains(f, entryName) }
 			r.Check(hasFact(func(f string) bool {
 				return strings.HasPrefix(f, "strings.HasPrefix(") && strings.HasSuffix(f, "=true") && mentionsEntry(f) && strings.Contains(f, `(conf.logID)+"-")`)
@@ -626,8 +633,20 @@ func c17Append(p *core.Program, r *core.Report) {
 			// <home>/logs/<name>, where <name> is one of the two name formats, written in place or
 			// selected into a local first (every value the local can hold must be one of them)
 			okName := false
-			if jc, isCall := ast.Unparen(call.Args[0]).(*ast.CallExpr); isCall && stripSpaces(types.ExprString(jc.Fun)) == "filepath.Join" && len(jc.Args) == 3 &&
-				stripSpaces(types.ExprString(jc.Args[0])) == "home" && stripSpaces(types.ExprString(jc.Args[1])) == `"logs"` {
+			rvn := &resolver{fi: fi, info: info, rn: rn}
+			var nameArg ast.Expr
+			if jc, isCall := ast.Unparen(call.Args[0]).(*ast.CallExpr); isCall && stripSpaces(types.ExprString(jc.Fun)) == "filepath.Join" && len(jc.Args) >= 2 {
+				// the directory part: everything but the last segment must be <home>/logs
+				var dir []string
+				for _, a := range jc.Args[:len(jc.Args)-1] {
+					dir = append(dir, joinSegments(p, rvn, a, 0)...)
+				}
+				if len(dir) == 2 && strings.Trim(dir[0], "()") == "conf.homePath" && dir[1] == `"logs"` {
+					nameArg = jc.Args[len(jc.Args)-1]
+				}
+			}
+			if nameArg != nil {
+				jc := &ast.CallExpr{Args: []ast.Expr{nil, nil, nameArg}}
 				cands := []ast.Expr{jc.Args[2]}
 				if id, isId := ast.Unparen(jc.Args[2]).(*ast.Ident); isId {
 					cands = nil
@@ -1401,4 +1420,65 @@ func c17LevelParse(p *core.Program, r *core.Report) {
 		}
 		r.Check(constant.Compare(got, token.EQL, want), "C17.level-names", cn, pos, "= "+c.want, fmt.Sprintf("yields %s, expected %s (%s): %s", got, c.want, want, what))
 	}
+}
+
+// joinSegments flattens a path expression into the list of its filepath.Join segments: locals with
+// one definition stand for that definition, a same-package helper that returns one path expression
+// (`func (l *FileLogger) logsDir() string { return filepath.Join(l.conf.homePath, "logs") }`, or a
+// helper that creates the directory and then returns it) stands for what it returns, nested Joins
+// are concatenated. Each segment is spelled by the resolver (receiver prefix dropped).
+func joinSegments(p *core.Program, rv *resolver, e ast.Expr, depth int) []string {
+	if depth > 8 {
+		return []string{rv.str(e)}
+	}
+	e = ast.Unparen(e)
+	switch v := e.(type) {
+	case *ast.Ident:
+		if obj, ok := rv.info.ObjectOf(v).(*types.Var); ok && !obj.IsField() && obj.Parent() != nil && obj.Pkg() != nil && obj.Parent() != obj.Pkg().Scope() {
+			if d := rv.def(obj); d != nil {
+				return joinSegments(p, rv, d, depth+1)
+			}
+		}
+	case *ast.CallExpr:
+		if stripSpaces(types.ExprString(v.Fun)) == "filepath.Join" {
+			var out []string
+			for _, a := range v.Args {
+				out = append(out, joinSegments(p, rv, a, depth+1)...)
+			}
+			return out
+		}
+		// a parameterless helper of the same package returning one path
+		var id *ast.Ident
+		switch f := ast.Unparen(v.Fun).(type) {
+		case *ast.Ident:
+			id = f
+		case *ast.SelectorExpr:
+			id = f.Sel
+		}
+		if id != nil && len(v.Args) == 0 {
+			if fn, _ := rv.info.Uses[id].(*types.Func); fn != nil && fn.Pkg() == rv.fi.Obj.Pkg() {
+				if hf := p.FuncOf(fn); hf != nil && hf.Decl.Body != nil {
+					var rets []ast.Expr
+					ast.Inspect(hf.Decl.Body, func(n ast.Node) bool {
+						switch r := n.(type) {
+						case *ast.FuncLit:
+							return false
+						case *ast.ReturnStmt:
+							if len(r.Results) == 1 {
+								rets = append(rets, r.Results[0])
+							} else {
+								rets = append(rets, nil)
+							}
+						}
+						return true
+					})
+					if len(rets) == 1 && rets[0] != nil {
+						sub := &resolver{fi: hf, info: hf.Pkg.TypesInfo, rn: recvName(hf)}
+						return joinSegments(p, sub, rets[0], depth+1)
+					}
+				}
+			}
+		}
+	}
+	return []string{rv.str(e)}
 }
